@@ -11,10 +11,14 @@
 //!
 //! Readings (weakest):
 //! * "success / failure / corrupted / violation report for a peer" = the statistics reports that the production
-//!   callers make (`P2PNode::report_peer_success` -> `update_node_stats(CorrectResponse)` etc.). The pairwise
-//!   `update_local_trust(x, p, ±)` is judged under separate entry names (`entry=update_local_trust(..)`).
-//! * monotonicity compares p's score only when p has a score in BOTH maps (a peer that becomes known through the
-//!   report itself has no score "without the report").
+//!   callers make (`P2PNode::report_peer_success` -> `update_node_stats(CorrectResponse)` etc.). The effect of the
+//!   pairwise `update_local_trust(x, p, ±)` on p is tallied in the evidence, not judged.
+//! * monotonicity compares p's score only when p was already part of the computation and has a score in BOTH maps
+//!   (a peer that becomes known through the report itself has no score "without the report").
+//! * `compute_global_trust()` returning through its internal 2 s timeout (cached map) is detected on a paused clock,
+//!   where it is a deterministic behaviour of the subject, and reported as `C10.completes`.
+//! * comparison clauses (`equal`, `mono-*`, `severity`) with a margin below 1e-3 are confirmed on fresh engines: the
+//!   subject's `diff < 1e-4` stopping test can flip with HashMap iteration order in rare borderline states.
 //! * `C10.query` is judged right after a computation for the nodes of the computed map and for a never-mentioned id.
 //! * all-zero maps are accepted by `C10.sum`, except when no negative report and no anchor ever existed.
 use futures::FutureExt;
@@ -896,7 +900,7 @@ fn main() {
     let computes = AtomicU64::new(0);
     let hist = Mutex::new(BTreeMap::new());
     let cx = Ctx { run: &run, col: &col, distinct: &distinct, fallbacks: &fallbacks, computes: &computes, hist: &hist };
-    let budget = Budget::new(Duration::from_secs(run.tier.pick(50, 1700)));
+    let budget = Budget::new(Duration::from_secs(run.tier.pick(45, 1700)));
     let big = 1u64 << 40;
 
     // ---- family A: BFS ------------------------------------------------------------------------------------------
@@ -1055,7 +1059,7 @@ fn main() {
             "all-zero maps are accepted unless no failure was ever reported and no anchor ever existed".into(),
             "get_trust is compared right after a computation, for nodes of the computed map and one never-mentioned identity; stale cache entries of nodes that dropped out of the map and the constructor's 0.9 for never-computed anchors are not judged".into(),
             "C10.equal: same statements in a different order (canonical state = per-pair report sequence, per-node multiset of statistic updates, anchor set; remove_node wipes the pairs touching the node) must give maps equal within 1e-9; time decay is uniform and normalised away (wall-clock elapsed < 1 h)".into(),
-            "verdict tolerances 1e-12 (monotonicity) / 1e-9 (sum, equal) are far above HashMap-order summation noise (~1e-16); a computation whose convergence test lands within that noise of 1e-4 could flip an iteration count - not observed in the enumerated space".into(),
+            "verdict tolerances 1e-12 (monotonicity) / 1e-9 (sum, equal) are far above HashMap-order summation noise (~1e-16); a comparison that fails by less than 1e-3 is reported only if it reproduces on 5 further fresh engines (the subject's diff < 1e-4 stopping test can flip with HashMap iteration order when diff equals 1e-4 up to rounding; such flips are tallied as not-reproducible)".into(),
         ],
     );
 }
